@@ -52,6 +52,8 @@ def run(chk):
         r = alice.req("POST", "/bk1/mp", query={"uploads": ""})
         uid = r.xml().findtext("UploadId") if r.status == 200 else ""
         ok &= alice.req("PUT", "/bk1/mp", query={"partNumber": "1", "uploadId": uid}, body=b"part").status == 200
+        ok &= alice.req("PUT", "/bk1", query={"versioning": ""}, body=b"<VersioningConfiguration><Status>Enabled</Status></VersioningConfiguration>").status == 200
+        ok &= alice.req("PUT", "/bk1/obj", body=b"own-object-v2").status == 200
         chk.require(ok, "c04:setup", "scenario setup failed")
 
         def inside_bk1(k):
@@ -105,6 +107,22 @@ def run(chk):
                 c.req("POST", "/bk1/mp", query={"uploadId": rel}, body=b"<CompleteMultipartUpload><Part><PartNumber>1</PartNumber><ETag>x</ETag></Part></CompleteMultipartUpload>")]))
             reqs.append(("CopyObject source versionId=%s" % rel, "copy-source-version", "raw", tname,
                          lambda c, rel=rel: [c.req("PUT", "/bk1/copied-v", headers={"x-amz-copy-source": "bk1/obj?versionId=" + rel})]))
+            # a repeated parameter: the value that is validated must be the value that is used (both orders on the wire)
+            for first, second in ((rel, uid), (uid, rel)):
+                rq = "uploadId=%s&uploadId=%s" % (s3c.quote_q(first), s3c.quote_q(second))
+                reqs.append(("AbortMultipartUpload uploadId=%s&uploadId=%s" % (first[:12], second[:12]), "uploadId-repeated", "raw", tname,
+                             lambda c, first=first, second=second, rq=rq: [c.req("DELETE", "/bk1/mp2", query=[("uploadId", first), ("uploadId", second)], raw_query=rq)]))
+                vq = "versionId=%s&versionId=%s" % (s3c.quote_q(first if first != uid else "null"), s3c.quote_q(second if second != uid else "null"))
+                reqs.append(("DeleteObject versionId repeated %s" % vq[:40], "versionId-repeated", "raw", tname,
+                             lambda c, first=first, second=second, vq=vq: [c.req("DELETE", "/bk1/obj-r", query=[("versionId", first if first != uid else "null"), ("versionId", second if second != uid else "null")], raw_query=vq)]))
+            # a batch delete naming one key several times: every entry's version id is a path element
+            for order in (0, 1):
+              for rel in [rel] + (["../" * d + t_ for d in (5, 6, 7) for t_ in ("root/bk2/victim", "outside/canary.txt")] if tname == "dotdot" else []):
+                ents = ["<Object><Key>obj-b</Key></Object>", "<Object><Key>obj-b</Key><VersionId>%s</VersionId></Object>" % rel]
+                body = "<Delete>" + "".join(ents if order == 0 else ents[::-1]) + "</Delete>"
+                reqs.append(("DeleteObjects repeated key, versionId=%s (%s)" % (rel, "second" if order == 0 else "first"), "batch-version-repeated", "raw", tname,
+                             lambda c, body=body: [c.req("POST", "/bk1", query={"delete": ""}, body=body.encode())]))
+                reqs.append(("DeleteObject versionId=%s" % rel, "versionId", "raw", tname, lambda c, rel=rel: [c.req("DELETE", "/bk1/obj-b", query={"versionId": rel})]))
         for pfx in ("../", "../../outside/", "a/../../bk2/", "..", "/"):
             reqs.append(("ListObjectsV2 prefix=%s" % pfx, "prefix", "raw", "listing", lambda c, pfx=pfx: [c.req("GET", "/bk1", query={"list-type": "2", "prefix": pfx})]))
             reqs.append(("ListObjects marker=%s" % pfx, "marker", "raw", "listing", lambda c, pfx=pfx: [c.req("GET", "/bk1", query={"marker": pfx})]))
